@@ -186,6 +186,7 @@ type run struct {
 	finished   atomic.Bool
 	dead       atomic.Bool
 	curCall    map[string]int
+	lateStart  map[int]func()
 }
 
 type recvState struct {
@@ -233,12 +234,23 @@ func (r *run) arrive(role, point string, b int, extra h.Ev) {
 			hold = true
 		}
 	}
+	// a "point:<role>|<point>" wedge holds the goroutine there until an unwedge op
+	var pointWedge chan struct{}
+	for _, f := range r.p.Faults {
+		if f.Mode == "wedge" && f.Kind == "point:"+key && f.Nth == nth {
+			pointWedge = make(chan struct{})
+			r.wedges[fmt.Sprintf("%s#%d", f.Kind, nth)] = pointWedge
+		}
+	}
 	r.mu.Unlock()
 	e := h.Ev{"ev": "point", "name": point, "role": role, "b": b}
 	for k, v := range extra {
 		e[k] = v
 	}
 	r.ev(e)
+	if pointWedge != nil {
+		<-pointWedge
+	}
 	if r.strict {
 		r.gates.Hold(role, point, 1)
 		r.gates.Arrive(role, point)
@@ -403,7 +415,7 @@ func (r *run) doCall(client string, c Call) {
 	switch c.Chan {
 	case "buf":
 		ch = make(chan error, 2)
-	case "unbuf", "aband":
+	case "unbuf", "aband", "late":
 		ch = make(chan error)
 	}
 	st := &recvState{}
@@ -416,8 +428,7 @@ func (r *run) doCall(client string, c Call) {
 	ctx, cancel := context.WithCancel(context.Background())
 	r.callCtx[c.ID] = cancel
 	r.mu.Unlock()
-	if c.Chan == "unbuf" {
-		// A receiver parked before the batch can possibly be answered.
+	startReceiver := func() {
 		go func() {
 			for v := range ch {
 				s := "nil"
@@ -430,6 +441,16 @@ func (r *run) doCall(client string, c Call) {
 				st.mu.Unlock()
 			}
 		}()
+	}
+	if c.Chan == "unbuf" {
+		// A receiver parked before the batch can possibly be answered.
+		startReceiver()
+	}
+	if c.Chan == "late" {
+		// The caller starts receiving only when the program says so ("recvstart").
+		r.mu.Lock()
+		r.lateStart[c.ID] = startReceiver
+		r.mu.Unlock()
 	}
 	r.mu.Lock()
 	r.curCall[client] = c.ID
@@ -559,6 +580,18 @@ func (r *run) launch(op Op) {
 		r.mu.Unlock()
 	case "sleep":
 		time.Sleep(time.Duration(op.Ms) * time.Millisecond)
+	case "recvstart":
+		r.mu.Lock()
+		for _, id := range op.Calls {
+			if f := r.lateStart[id]; f != nil {
+				delete(r.lateStart, id)
+				r.mu.Unlock()
+				r.ev(h.Ev{"ev": "recvstart", "b": id})
+				f()
+				r.mu.Lock()
+			}
+		}
+		r.mu.Unlock()
 	}
 }
 
@@ -631,7 +664,15 @@ func (r *run) observe() {
 	for _, g := range got {
 		r.ev(h.Ev{"ev": "ack", "b": g[0], "res": g[1], "a": g[2]})
 	}
-	r.ev(h.Ev{"ev": "acksdone", "a": len(got), "n": len(r.gates.Parked())})
+	held := len(r.gates.Parked())
+	r.mu.Lock()
+	for k := range r.wedges {
+		if strings.HasPrefix(k, "point:") {
+			held++ // a goroutine held at a hook point by the harness, not by the environment
+		}
+	}
+	r.mu.Unlock()
+	r.ev(h.Ev{"ev": "acksdone", "a": len(got), "n": held})
 	r.visibility(ids)
 }
 
@@ -735,7 +776,7 @@ func Run(p *Program, tr *h.Tracer, traceID int64, scratch string) Result {
 	r := &run{p: p, tr: tr, gates: h.NewGates(), roles: h.NewRoles(),
 		chans: map[int]chan error{}, flags: map[int]*recvState{}, callByReq: map[chan error]int{},
 		kindCount: map[string]int{}, wedges: map[string]chan struct{}{}, pointSeen: map[string]int{},
-		callCtx: map[int]context.CancelFunc{}, curCall: map[string]int{}}
+		callCtx: map[int]context.CancelFunc{}, curCall: map[string]int{}, lateStart: map[int]func(){}}
 	tr.Begin(traceID)
 
 	cfg := bs.DefaultBloomSearchEngineConfig()
@@ -850,6 +891,13 @@ func Run(p *Program, tr *h.Tracer, traceID int64, scratch string) Result {
 	// final: let everything finish, observe, and leave the engine stopped.
 	r.gates.ReleaseAll()
 	r.launch(Op{Op: "unwedge"})
+	r.mu.Lock()
+	var lateIDs []int
+	for id := range r.lateStart {
+		lateIDs = append(lateIDs, id)
+	}
+	r.mu.Unlock()
+	r.launch(Op{Op: "recvstart", Calls: lateIDs})
 	if r.stopC != nil {
 		// the context eventually runs its callbacks
 		r.stopC.runAfterFuncs()
